@@ -475,6 +475,14 @@ def plan_structure(ctx):
         if coll == "keytree":
             big["tspan"] = 200 if q else 800
         futs += random_jobs(ctx, [coll], 1 if q else 2, big, tag="-big")
+    if not q:
+        # anti-vacuity at model level: how often each repair case / growth path / expiry loop fired
+        want = ("FixInsert", "GetUncle", "RotateLeft", "RotateRight", "HandleRedSibling", "HandleBlackSiblingRedChild", "FixDelete",
+                "DeleteIndex", "LeftMin", "ClearRound", "Reserve", "ClimbAfter", "ClimbBefore", "XRoot", "XLeft", "XRight", "XSearch",
+                "XInsDescend", "ExportLoop")
+        cov = operator_coverage("MCOrd", ctx.cfg("cov-ord", ord_consts(7), ORD_INV), ctx.path("meta-cov-ord"), modules=("RBArena",))
+        cov.update({"key:" + k: v for k, v in operator_coverage("MCKey", ctx.cfg("cov-key", key_consts(3, 3), KEY_INV), ctx.path("meta-cov-key")).items()})
+        ctx.notes.append({"operator_evaluations": {k: v for k, v in cov.items() if k.split(".")[-1] in want}})
     ctx.collect(futs)
     return ctx.finish(COVER_RULE + "; structure predicates (WellFormed / PoolOK / growth bound) are evaluated by TLC on the "
                       "snapshot of every logged state", ASSUME_COMMON)
